@@ -250,11 +250,11 @@ func C08(c *ev.Ctx) {
 		return cs
 	}
 	var cases []c08Case
-	n2 := c.Pick(70, 600)
+	n2 := c.Pick(70, 1500)
 	for i := 0; i < n2; i++ {
 		cases = append(cases, mk(2, rr.IntN))
 	}
-	for i := 0; i < c.Pick(20, 400); i++ {
+	for i := 0; i < c.Pick(20, 1000); i++ {
 		cases = append(cases, mk(3, rr.IntN))
 	}
 	// systematic pairs: u1 imports exactly leaf set A and u2, u2 imports exactly leaf set B (all 16 x 16 in the thorough tier)
